@@ -10,6 +10,7 @@
 mod c13;
 mod cfg;
 mod gen;
+mod mem;
 mod meta;
 mod oracle;
 mod packed;
@@ -18,6 +19,7 @@ mod sem;
 mod stream;
 mod util;
 mod walk;
+mod work;
 
 use report::{Ctx, Report, Tier};
 use util::J;
@@ -43,6 +45,9 @@ fn run_monitor(prop: &str, ctx: &Ctx, rep: &mut Report) -> Result<(), String> {
         "C07" | "C08" | "C18" => stream::run(prop, ctx, rep),
         "C06" => packed::run(ctx, rep),
         "C05" => meta::run_c05(ctx, rep),
+        "C19" => work::run_c19(ctx, rep),
+        "C15" => mem::run(ctx, rep),
+        "C20" => work::run_c20(ctx, rep),
         "C10" => meta::run_c10(ctx, rep),
         "C11" => meta::run_c11(ctx, rep),
         "C12" => meta::run_c12(ctx, rep),
@@ -60,6 +65,9 @@ fn replay_monitor(prop: &str, case: &J, rep: &mut Report) -> Result<(), String> 
         "C07" | "C08" | "C18" => stream::replay(prop, case, rep),
         "C06" => packed::replay(case, rep),
         "C05" => meta::replay_c05(case, rep),
+        "C19" => work::replay_c19(case, rep),
+        "C15" => mem::replay(case, rep),
+        "C20" => work::replay_c20(case, rep),
         "C10" => meta::replay_c10(case, rep),
         "C11" => meta::replay_c11(case, rep),
         "C12" => meta::replay_c12(case, rep),
@@ -145,6 +153,9 @@ fn main() {
         }
     }
     sem::install_quiet_panic_hook();
+    if let Some(p) = &out {
+        mem::install_crash_reporter(&format!("{}.progress", p));
+    }
     let started = std::time::Instant::now();
     let (rep, err) = match args[1].as_str() {
         "run" => {
